@@ -104,14 +104,31 @@ Fixpoint list_files (fuel : nat) (w : world) (i : N) (prefix : list N) (seen : l
   end.
 Definition enc_world_files (w : world) : sx := SL (list_files (S (length (w_nodes w))) w (w_root w) [] []).
 
+(* A deterministic stand-in for gpg, implemented identically in the harness (tools/corr/engine_tree.py FakePGP):
+   the signature block names the key; the key id "bad" has no usable secret key; verification accepts exactly
+   the messages whose signature block starts with FAKESIG.  Real gpg is exercised separately (C04, C05, C14). *)
+Definition fake_head : list N := u "-----BEGIN PGP SIGNED MESSAGE-----" ++ [10] ++ u "Hash: FAKE" ++ [10; 10].
+Definition fake_sig (k : list N) : list N :=
+  u "-----BEGIN PGP SIGNATURE-----" ++ [10; 10] ++ u "FAKESIG " ++ k ++ [10] ++ u "-----END PGP SIGNATURE-----" ++ [10].
+Fixpoint has_infix (p s : list N) : bool :=
+  match s with
+  | [] => match p with [] => true | _ => false end
+  | _ :: r => py_startswith s p || has_infix p r
+  end.
+Definition fake_pgp_verify (t : list N) : res sigdata :=
+  if has_infix ([10] ++ u "FAKESIG ") t then Ok (mk_sig (u "FAKE") [] [] (u "FAKE")) else Err (XPGP PGPVerification).
+Definition fake_pgp_sign (t : list N) (k : option (list N)) : res (list N) :=
+  let kid := match k with Some x => x | None => u "default" end in
+  if ustr_eqb kid (u "bad") then Err (XPGP PGPSigning) else Ok (fake_head ++ t ++ fake_sig kid).
+
 Section Run.
   Variable dt : otable.
   Variable ct : ctable.
   Let L := table_hashlib dt.
   Let dec := table_decompress ct.
   Let comp := table_compress ct.
-  Let pgp (t : list N) : res sigdata := Err (XPGP PGPNoImpl).
-  Let sign (t : list N) (k : option (list N)) : res (list N) := Err (XPGP PGPNoImpl).
+  Let pgp := fake_pgp_verify.
+  Let sign := fake_pgp_sign.
   Variable wmtime : Z.
   Variable reload : world -> res loader.
 
@@ -281,7 +298,7 @@ Definition run_tree (args : list sx) : option sx :=
       match x_list lx with
       | [top; o; ac; ax] =>
           let mk := fun (w' : world) (create : bool) =>
-            new_loader (table_hashlib dt) (table_decompress ct) (fun _ => Err (XPGP PGPNoImpl))
+            new_loader (table_hashlib dt) (table_decompress ct) fake_pgp_verify
                        w' (x_str top) (dec_options o) create (x_bool ax) in
           match mk w (x_bool ac) with
           | Ok l => Some (SL [sym "ok"; SL (run_ops dt ct (x_Z wmt) (fun w' => mk w' false) w l (x_list ops))])
